@@ -177,6 +177,8 @@ class NCls(V):
 @dataclass(frozen=True)
 class NInst(V):
     cls: NCls
+    origin: str = ""
+    arr: Any = field(default=None, compare=False)   # the ArrV this instance was built from (from_data)
 
 
 @dataclass
@@ -185,6 +187,7 @@ class ArrV(V):
     rows: Any
     cols: Any
     origin: str = ""
+    form: Any = None     # matform.MatForm normal form of the value, when derivable
 
     def __repr__(self):
         return f"Arr({self.rows} x {self.cols})"
@@ -249,6 +252,29 @@ class ElemV(V):
 @dataclass(frozen=True)
 class TupleV(V):
     items: Tuple[Any, ...]
+    names: Tuple[str, ...] = ()      # field names when built by a namedtuple class
+    ntname: str = ""
+
+
+@dataclass(frozen=True)
+class NTClsV(V):
+    """a collections.namedtuple class"""
+    name: str
+    fields: Tuple[str, ...]
+
+
+@dataclass(frozen=True)
+class ScalV(V):
+    """scalar with a commutative normal form (matform.Scalar) and/or the 1x1 matrix form it was read from"""
+    s: Any = None
+    m: Any = None
+
+
+@dataclass(frozen=True)
+class CmpV(V):
+    op: str
+    left: Any
+    right: Any
 
 
 @dataclass(frozen=True)
